@@ -195,6 +195,11 @@ def classify_store(ctx, f, nd, tgt, val, K, mask_in_scope):
                 return 'bad', '(ii) successor stored in column %s, not successor mod 4' % show(j)
         if j[0] == 'idx':
             return 'bad', '(i) value %s stored in column of the enumeration of %s' % (show(w), show(j[1]))
+        # column = successors mod something that is not 4 (the out-degree, the length of the list, ...)
+        if j[0] == 'bin' and j[1] == '%' and j[2] == w and j[3] != ('c', 4) and \
+                (is_call(j[3], 'builtins.len') or j[3][0] in ('c', 'v', 'attr')):
+            return 'bad', ('(ii) successors are stored in column `successor mod %s`; the column of a successor is its last nucleotide, '
+                           'successor mod 4' % show(j[3])[:40])
         return 'undecided', 'entry store %s = %s' % (show(tgt)[:80], show(val)[:80])
     return 'undecided', 'store %s = %s' % (show(tgt)[:80], show(val)[:80])
 
@@ -491,7 +496,24 @@ def r_ord_empty(ctx, fq):
         conds = ctx.conds(f, nd)
         rate, vals = None, (0.0, 1e-9, 0.25)
 
+        def index_list(x):
+            """x is a local list that collects loop indices (xs = []; xs.append(i))"""
+            if x[0] != 'v' or not isinstance(x[2], tuple):
+                return False
+            ds = [f.defs[i] for i in x[2]]
+            grows = [d for d in f.defs if d.name == x[1] and d.kind == 'mutate' and isinstance(d.extra, ast.Attribute) and d.extra.attr == 'append']
+            if not grows:
+                return False
+            for d in grows:
+                tt = f.term(d.value, f.nodes[d.node])
+                a_ = tt[2][0] if tt[2] else None
+                if a_ is None or a_[0] not in ('iter', 'idx'):
+                    return False
+            return True
+
         def is_count(x):
+            if is_call(x, 'numpy.sum', 'builtins.sum') and len(x[2]) == 1 and index_list(x[2][0]):
+                return False
             return is_call(x, 'numpy.sum', 'builtins.sum', 'numpy.count_nonzero') and len(x[2]) == 1 or \
                 (is_call(x, 'builtins.len') and x[2] and x[2][0][0] == 'sub' and is_call(x[2][0][1], 'numpy.where'))
 
@@ -511,6 +533,18 @@ def r_ord_empty(ctx, fq):
                     if (is_call(x, 'builtins.any', 'numpy.any') and len(x[2]) == 1 or
                             x[0] == 'call' and x[1][0] == 'attr' and x[1][2] == 'any' and not x[2]) and rate is None:
                         rate, vals = x, (False, True, True)
+        if rate is None:
+            for atom, pol in conds:
+                for x in walk_term(atom):
+                    if is_call(x, 'numpy.sum', 'builtins.sum') and len(x[2]) == 1 and index_list(x[2][0]) and _exc_type(f, nd) == 'ValueError':
+                        n += 1
+                        run.refute('R-ORD', f, 'raise-iff-none-accepted', nd.lineno,
+                                   'the "nothing collected" test adds up the collected INDICES (%s): the sum is 0 for an empty list and also '
+                                   'when only index 0 (AA..A) was collected, so a filter that accepts only that k-mer gets a spurious ValueError'
+                                   % show(x)[:50], inputs='filters that accept exactly the all-A k-mer')
+                        rate = False
+            if rate is False:
+                continue
         if rate is None:
             continue
         n += 1
